@@ -468,7 +468,19 @@ func normalizePackage(repo, relDir string, p *packages.Package, imp types.Import
 	}
 	failed := map[string]bool{} // "callee@caller" pairs the inliner refused
 	reported := map[string]bool{}
+	formatted := map[string][]byte{}
 	for iter := 0; iter < 400; iter++ {
+		// every step starts from gofmt-formatted sources: the inliner hands back formatted files, and its edit is
+		// compared with what it was given (guardSelfShadow)
+		for _, n := range names {
+			if b, ok := formatted[n]; ok && bytes.Equal(b, src[n]) {
+				continue
+			}
+			if fb, ferr := format.Source(src[n]); ferr == nil {
+				src[n] = fb
+			}
+			formatted[n] = src[n]
+		}
 		np, err := checkPackage(p.PkgPath, p.Name, names, src, imp)
 		if err != nil {
 			res.Skipped = append(res.Skipped, fmt.Sprintf("%s: normalised package does not type-check (%v): left as it was", relDir, err))
